@@ -163,10 +163,7 @@ def roundtrip_job(eng, tables, prop, tname, policy, deadline, max_paths=None, in
                     "redecode-differs": "OK eq=false", "not-fixed-point": "OK eq=true fixed=false",
                     "encode-emits-duplicate": "OK", "encode-shape": "OK"}[cls]
             extra = {"compare": "startswith"}
-            if built:
-                # builder-made values are replayed through the Value-level API by the ops module
-                extra["command_hint"] = "built"
-            if cls == "encode-shape" and "v1" in o and not built:
+            if cls == "encode-shape" and "v1" in o:
                 m = ctx.model()
                 if m is not None:
                     reg = {}
@@ -177,8 +174,10 @@ def roundtrip_job(eng, tables, prop, tname, policy, deadline, max_paths=None, in
                         extra = {"op_override": "encode"}
                     except Exception:
                         pass
-            _finding(job, seen, ctx, eng, prop, tname, cls, what, node,
-                     extra.get("op_override", "roundtrip"), pred, extra)
+            op = extra.get("op_override", "roundtrip")
+            if built:
+                op = "ops %s_built" % op
+            _finding(job, seen, ctx, eng, prop, tname, cls, what, node, op, pred, extra)
         if len(job.samples) < 2:
             m = ctx.model()
             if m is not None:
@@ -279,7 +278,7 @@ PATHS = {"Header": "header::Header", "CoseKey": "key::CoseKey", "ClaimsSet": "cw
 
 
 def encode_job(eng, tables, prop, tname, n_extra, deadline, max_paths=None, initial=None, bfs=False,
-               slice_s=None, tag=""):
+               slice_s=None, tag="", dups_in_scope=True):
     """In-memory values with arbitrary extra labels (built from struct literals): encoding yields
     the reference map, or fails with DuplicateMapKey exactly when two keys denote the same label."""
     job = JobResult("encode:%s%s" % (tname, tag))
@@ -297,6 +296,8 @@ def encode_job(eng, tables, prop, tname, n_extra, deadline, max_paths=None, init
             fault = None
         except refenc.EncodeFault as f:
             expected, fault = None, f.kind
+        if fault is not None and not dups_in_scope:
+            return ("ok-dup", None, r)          # not a well-formed value: outside this property
         if fault is not None:
             if r.variant == "Ok":
                 return ("encode-emits-duplicate", "encoding succeeded although two map keys denote the same label", r)
